@@ -131,6 +131,7 @@ func (p *TriggerPool) run(
 
 	for p.running() {
 		if p.jobsToExecute.none() {
+			verifhook.Yield("pool.worker.beforeWait")
 			p.waitForNewJobs()
 		}
 
